@@ -57,11 +57,20 @@ func init() {
 			runParseCases(c, budget(c.Tier, 300, 30000), defaultProfile, func(cr *CaseResult) { oracleNoPanic(c, cr) })
 		}}
 	props["C11"] = propRun{
-		rule: "all integer kinds x bases 2..36 x texts at and around the type limits with signs, leading zeros, blanks, underscores, junk; distinct per (kind, base, text)",
+		rule: "(a) all integer kinds x bases 2..36 x texts at and around the type limits with signs, leading zeros, blanks, underscores, junk through convert; (b) whole-parser cases over numeric / float32 / float64 / duration / bool / map / pointer / slice options with values at and beyond the limits (1e39 for float32, 1e400, NaN, inf), choices and unconvertible values; distinct per (kind, base, text) / case",
 		run: func(c *Ctx) {
 			c.N = budget(c.Tier, 6000, 500000)
 			checkC11Ints(c)
 			checkStdlibModel(c, budget(c.Tier, 300, 20000))
+			p := defaultProfile
+			p.OnlyTypes = []string{"i8", "i16", "i32", "i64", "int", "u8", "u16", "u32", "u64", "uint", "f32", "f32", "f64", "dur", "bool", "Lf32", "Pf32", "Li8", "Mstr,f32", "Mint,str", "Pu8", "c0", "str", "Lbool"}
+			p.ValueBad = 0.25
+			p.Choices = 0.25
+			p.BadDecl = 0.01
+			p.Unknown = 0.02
+			p.Weird = 0.02
+			p.ArgvLen = 6
+			runParseCases(c, budget(c.Tier, 1500, 100000), p, func(cr *CaseResult) { oracleNoPanic(c, cr) })
 		}}
 }
 
